@@ -50,7 +50,7 @@ ENGINE = {"name": "sweepsim", "path": "/verif/sim/sweepsim", "serves_properties"
 TEXT = {
     "C18": dict(engine="sweepsim", design_ref="DESIGN.md 5 C18",
                 technique="deterministic simulation with fault injection: seeded histories of inputs, blocks, estimator answers, mempool verdicts and spends around the real sweeper/publisher; per-transaction and per-request oracles at the wallet seam",
-                level_text="Seeded exploration. Every transaction the node hands to the wallet (testmempoolaccept or publish) is judged on its own: fee = inputs - outputs <= sum of the budgets the caller attached to its inputs (exact), fee <= MaxFeeRate x (actual weight + documented witness slack), input set == the bump request's input set, every output >= its script's dust limit, required (SINGLE|ANYONECANPAY) outputs at the index of their input, nothing handed to PublishTransaction below the relay floor. Per request: offered fees and reported fee rates never decrease, reported rates <= MaxFeeRate, request budget <= attached budgets, and at every quiescent point where deadline - height <= 1 the last offered fee of a live request is at the ceiling min(budget, MaxFeeRate x weight) up to integer sat/kw rounding; a request whose start lies within the ceiling must not die of 'not enough budget'. The fee-function arm checks monotonicity, the cap, start >= relay floor, the increased-flag and rate == ceiling at conf target <= 1 directly on FeeRate(). Exploration is the right level: histories and integer roundings are unbounded, the oracles are scenario independent.",
+                level_text="Seeded exploration. Every transaction the node hands to the wallet (testmempoolaccept or publish) is judged on its own: fee = inputs - outputs <= sum of the budgets the caller attached to its inputs (exact), fee <= MaxFeeRate x (actual weight + documented witness slack), input set == the bump request's input set, every output >= its script's dust limit, required (SINGLE|ANYONECANPAY) outputs at the index of their input, nothing handed to PublishTransaction below the relay floor. Per request: offered fees and reported fee rates never decrease, reported rates <= MaxFeeRate, request budget <= attached budgets, and at every quiescent point where deadline - height <= 1 the last offered fee of a live request is at the ceiling min(budget, MaxFeeRate x weight) up to integer sat/kw rounding; a request whose start lies within the ceiling must not die of 'not enough budget'. Across requests: a bump request that contains an input of a failed sweep starts no lower than the fee rate that sweep had reached (sweeper contract: the failed result's rate is the next starting rate, a set starts at the MAX over its inputs). The fee-function arm checks monotonicity, the cap, start >= relay floor, the increased-flag and rate == ceiling at conf target <= 1 directly on FeeRate(). Exploration is the right level: histories and integer roundings are unbounded, the oracles are scenario independent.",
                 level_note="Trusted: the simulated mempool policy, the documented size slack, Bitcoin Core default dust limits. Not covered: MempoolWatcher/RBFInfo after a restart, UpdateParams/BumpFee on a published input, AuxSweeper outputs, CPFP parents, taproot/nested wallet coins, wallet-coin contention. Open findings F1-F4 (findings/) are reported as KNOWN-FINDING once merged into known_findings.json; signature-carrying violations are raised at the end of a run so that they do not mask the other oracles."),
 }
 
